@@ -1,11 +1,13 @@
 \* sanity: the as-built mapper compositions MUST violate AllOrNothing
 CONSTANTS
   DEV_CredUpsertShadowedErr = FALSE
+  DEV_PgCredUpsertShadowedErr = FALSE
   DEV_UsersCreateCompensates = TRUE
   DEV_TopicsCreateTwoTx = TRUE
   DEV_DeleteListThreeTx = TRUE
   Universe = "table"
   MaxStmts = 1
+  Dialect = "mysql"
   GenShadow = FALSE
 SPECIFICATION Spec
 INVARIANTS InvAllOrNothing
